@@ -110,13 +110,16 @@ def run(ctx):
     streams = list(STREAMS) + [("component/routing/domain_matcher", "component/routing/domain_matcher/c11_test.go",
                                 "c11cc", "TestVerifC11Concurrent", "c11cc")]
     for pkg, hf, binname, test, label in streams:
-        binp = ctx.go_test_build(pkg, [hf], binname, tags="")
-        if not binp:
-            return 2
         raced = False
         if label == "c11cc":
+            binp = os.path.join(CACHE, "bin", "c11dm.test")   # same harness file: the plain binary has this test too
+        else:
+            binp = ctx.go_test_build(pkg, [hf], binname, tags="")
+        if not binp:
+            return 2
+        if label == "c11cc":
             # same overlay, built with the race detector (falls back to the plain binary if -race cannot link here)
-            ov = os.path.join(ctx.out, f"overlay_{binname}.json")
+            ov = os.path.join(ctx.out, "overlay_c11dm.json")
             rbin = os.path.join(CACHE, "bin", binname + ".race.test")
             if os.path.exists(rbin):
                 os.unlink(rbin)
@@ -170,7 +173,7 @@ def run(ctx):
             if canon(im) == canon(mo) and im != mo:
                 if im.startswith("err"):
                     diagnostics["error_class_differs"] += 1
-                elif "unavailable" not in im:
+                elif "unavailable" not in im and "order=-" not in im:
                     diagnostics["layout_differs"] += 1
             # model-internal disagreement (packed trie vs trie contract vs documented meaning vs word
             # encoding) is a violation even when the implementation agrees with the packed path
